@@ -1059,6 +1059,9 @@ func runC20(w *World, r *Report) {
 	r.Rule("C20.branch-value-not-mutated", "graph.addBranch never writes through its *GraphBranch parameter", 1)
 	ruleNoMutateParams(w, r, "C20.branch-value-not-mutated", w.Fn("compose", "graph.addBranch"), map[string]bool{"branch": true})
 
+	r.Rule("C20.builder-args-not-mutated", "the Chain Append* methods never write through the objects they are handed (*ChainBranch, *Parallel, *ToolsNode, *Lambda): a value attached twice behaves twice the same", 3)
+	chainAppendArgsNotMutated(w, r, "C20.builder-args-not-mutated")
+
 	r.Rule("C20.nil-helper-receiver", "graphNode.getGenericHelper never calls a genericHelper method on the still-unset helper of a pass-through node (Add* must return errors, never panic)", 2)
 	nilHelperReceiverCheck(w, r, "C20.nil-helper-receiver")
 
@@ -1621,5 +1624,36 @@ func nilHelperReceiverCheck(w *World, r *Report, rule string) {
 	})
 	if n < 2 {
 		r.Fail(rule, "graphNode.getGenericHelper: helper method calls", f.Pos(), fmt.Sprintf("%d calls found (forMapInput / forMapOutput expected)", n))
+	}
+}
+
+// chainAppendArgsNotMutated: shared by C20.builder-args-not-mutated and C01.chain-stage-values-not-mutated.
+func chainAppendArgsNotMutated(w *World, r *Report, rule string) {
+	n := 0
+	chainT := w.Named("compose", "Chain")
+	ms := types.NewMethodSet(types.NewPointer(chainT))
+	for i := 0; i < ms.Len(); i++ {
+		m := ms.At(i).Obj().(*types.Func)
+		if !strings.HasPrefix(m.Name(), "Append") {
+			continue
+		}
+		f := w.Prog.FuncValue(m)
+		if f == nil || len(f.Blocks) == 0 {
+			continue
+		}
+		which := map[string]bool{}
+		for _, p := range f.Params[1:] {
+			if _, isPtr := p.Type().Underlying().(*types.Pointer); isPtr {
+				which[p.Name()] = true
+			}
+		}
+		if len(which) == 0 {
+			continue
+		}
+		n++
+		ruleNoMutateParams(w, r, rule, f, which)
+	}
+	if n < 2 {
+		r.Fail(rule, "Chain.Append* methods taking pointers", chainT.Obj().Pos(), fmt.Sprintf("%d found", n))
 	}
 }
